@@ -39,6 +39,8 @@ func bannerArgs(bits [5]bool, channel int, provider string) (args []string, env 
 			args = append(args, "--"+flagName+"="+val)
 		case 1:
 			env = append(env, envName+"="+val)
+		case 3:
+			args = append(args, "--"+flagName, val) // the value as an argument of its own
 		case 2:
 			if provEnv != "" {
 				env = append(env, provEnv+"="+val)
@@ -103,7 +105,7 @@ func runBanner(args []string) error {
 		for i := 0; i < 5; i++ {
 			bits[i] = code&(1<<i) != 0
 		}
-		for channel := 0; channel < 3; channel++ {
+		for channel := 0; channel < 4; channel++ {
 			for _, provider := range []string{"openid", "idporten", "azure"} {
 				if channel == 2 && provider == "openid" {
 					continue
@@ -141,7 +143,7 @@ func runBanner(args []string) error {
 					fmt.Fprintln(wimpl, strings.Join(codes, " "))
 				}
 				hasBanner := strings.Contains(outp, "config: ")
-				ob, _ := json.Marshal(map[string]any{"bits": bits, "channel": []string{"flag", "WONDERWALL_ env", "provider-specific env"}[channel], "provider": provider,
+				ob, _ := json.Marshal(map[string]any{"bits": bits, "channel": []string{"flag (--name=value)", "WONDERWALL_ env", "provider-specific env", "flag (--name value)"}[channel], "provider": provider,
 					"leaked": leaked, "banner_seen": hasBanner, "output_bytes": len(outp)})
 				wobs.Write(ob)
 				wobs.WriteByte('\n')
